@@ -230,7 +230,7 @@ fn main() {
         i += 2;
     }
     if id == "WARMUP" {
-        println!("warm");
+        println!("warm (element size {} bytes)", std::mem::size_of::<eyeball_verif::common::Tracked>());
         std::process::exit(0);
     }
     let Some(spec) = spec(&id) else {
